@@ -9,7 +9,7 @@ from . import cacheworld as cw
 
 PROP = 'C19'
 PROFILE = 'c19'
-QUICK = (192, 30, 60.0)
+QUICK = (320, 30, 60.0)
 THOROUGH = (2400, 50, 840.0)
 boot, execute, cfg_sig, nontrivial = cw.boot, cw.execute, cw.cfg_sig, cw.nontrivial
 SHRINK_LISTS, SHRINK_DICTS = cw.SHRINK_LISTS, cw.SHRINK_DICTS
